@@ -9,7 +9,9 @@
 //!   str <hex utf8>        Process.println("<raw>")        raw pasted between the quotes as is
 //!   i2s <n>               Str.fromInt(n)
 //!   s2i <hex utf8>        Str.fromInt("<text>".toInt())   text = plain characters only
-//!   vec <op> ...          push:v pop get:i set:i:v len on one Vec<int>; prints u / v<n> per call
+//!   vec [new:of:v|new:cap:n] <op> ...   push:v pop get:i set:i:v len cap res:n on one Vec<int>; prints u / v<n> per call
+//!   veq <a> <b>           two Vec<int> built by push (elements comma separated, `-` = empty): a.eq(b), b.eq(a), a.eq(a)
+//!   seq <hexA> <na> <hexB> <nb>   a = "A" :: Str.fromInt(na), b likewise (run-time strings): a == b, a != b, a :: b
 //! stdout: per line  `T <hex text> <hex end|-> W <hex text> <hex end|->`   (TypeScript, WebAssembly)
 //!         or `C <hex msg>` (rejected by the compiler), `X <hex msg>` (compiler panicked),
 //!         `unsupported`; text = what the line printed; end = how the program terminated if it
@@ -66,8 +68,54 @@ fn snippet(line: &str) -> Option<String> {
       }
       Some(p(format!("Str.fromInt(\"{s}\".toInt())")))
     }
+    ["veq", a, b] => {
+      let mut s = String::new();
+      for (name, elems) in [("a", a), ("b", b)] {
+        s.push_str(&format!("    let {name} = Vec.empty<int>();\n"));
+        if *elems != "-" {
+          for e in elems.split(',') {
+            s.push_str(&format!("    let _ = {name}.push({});\n", int_lit(e)?));
+          }
+        }
+      }
+      for (x, y) in [("a", "b"), ("b", "a"), ("a", "a")] {
+        s.push_str(&p(format!("\"v\" :: Str.fromInt(if {x}.eq({y}) {{ 1 }} else {{ 0 }})")));
+      }
+      Some(s)
+    }
+    ["seq", ha, na, hb, nb] => {
+      let alnum = |h: &str| -> Option<String> {
+        let t = String::from_utf8(unhex(h)).ok()?;
+        if t.chars().all(|c| c.is_ascii_alphanumeric()) { Some(t) } else { None }
+      };
+      let (a, b) = (alnum(ha)?, alnum(hb)?);
+      let mut s = format!(
+        "    let a = \"{a}\" :: Str.fromInt({});\n    let b = \"{b}\" :: Str.fromInt({});\n",
+        int_lit(na)?,
+        int_lit(nb)?
+      );
+      s.push_str(&p("\"v\" :: Str.fromInt(if a == b { 1 } else { 0 })".to_string()));
+      s.push_str(&p("\"v\" :: Str.fromInt(if a != b { 1 } else { 0 })".to_string()));
+      s.push_str(&p("\"s\" :: a :: b".to_string()));
+      Some(s)
+    }
     ["vec", ops @ ..] => {
+      let mut ops = ops;
       let mut s = String::from("    let v = Vec.empty<int>();\n");
+      if let Some(first) = ops.first() {
+        let f: Vec<&str> = first.split(':').collect();
+        match f.as_slice() {
+          ["new", "of", v] => {
+            s = format!("    let v = Vec.of<int>({});\n", int_lit(v)?);
+            ops = &ops[1..];
+          }
+          ["new", "cap", n] => {
+            s = format!("    let v = Vec.withCapacity<int>({});\n", int_lit(n)?);
+            ops = &ops[1..];
+          }
+          _ => {}
+        }
+      }
       for o in ops {
         let f: Vec<&str> = o.split(':').collect();
         match f.as_slice() {
@@ -82,6 +130,11 @@ fn snippet(line: &str) -> Option<String> {
             s.push_str(&p("\"u\"".to_string()));
           }
           ["len"] => s.push_str(&p("\"v\" :: Str.fromInt(v.length())".to_string())),
+          ["cap"] => s.push_str(&p("\"v\" :: Str.fromInt(v.capacity())".to_string())),
+          ["res", n] => {
+            s.push_str(&format!("    let _ = v.reserve({});\n", int_lit(n)?));
+            s.push_str(&p("\"u\"".to_string()));
+          }
           _ => return None,
         }
       }
@@ -131,6 +184,11 @@ fn main() {
   std::panic::set_hook(Box::new(|_| {}));
   let lines: Vec<String> =
     std::io::stdin().lock().lines().map(|l| l.unwrap().trim_end().to_string()).filter(|l| !l.is_empty()).collect();
+  if lines.len() == 1 && lines[0] == "prelude" {
+    // the real text every emitted .ts file starts with (tie of the TypeScript runtime, see extract/c04_runtime.py)
+    println!("{}", hex(samlang_ast::lir::ts_prolog().as_bytes()));
+    return;
+  }
   let mut answers: Vec<String> = vec![String::new(); lines.len()];
   let mut progs: Vec<Prog> = Vec::new();
   let mut cur: Option<Prog> = None;
@@ -145,7 +203,7 @@ fn main() {
       continue;
     };
     let sn = format!("{sn}    let _ = Process.println(\"{MARK}\");\n");
-    if solo || l.starts_with("vec") {
+    if solo || l.starts_with("vec") || l.starts_with("veq") || l.starts_with("seq") {
       progs.push(Prog { idx: vec![i], source: sn });
     } else {
       let c = cur.get_or_insert_with(|| Prog { idx: vec![], source: String::new() });
